@@ -62,6 +62,9 @@ def run(cx: Cx):
                 cases.append((ag, f_and(*conds), where))
             continue
         if isinstance(v, Fresh) and v.kind in ('list', 'call:list') and not v.items:
+            from .common import known_empty_on
+            if not any(e.kind == 'loop' for e in p.events) and known_empty_on(p.cond, agents):
+                continue        # `if not self.agents: return []`: nobody lives here, the empty answer is exact
             loops = [e for e in p.events if e.kind == 'loop' and order_class(e.data.get('iter'), agents) != 'unrelated']
             if len(loops) != 1 or order_class(loops[0].data.get('iter'), agents) != 'inorder':
                 cx.violation('R-ITER', fn.qualname, 'filters-the-resident-agents', f"get_agents_at does not make one in-order pass over "
